@@ -19,6 +19,7 @@ func init() {
 		Assumptions: []string{"sync.WaitGroup semantics; a buffered channel of capacity n accepts n sends without a receiver"},
 		Run:         runC17,
 		Controls: []Control{
+			{Name: "write-under-read-strategy", File: "pkg/trait/lightpb/group.go", Old: "\tresults, err := group.Execute(ctx, s.WriteExecution, actions)\n", New: "\tresults, err := group.Execute(ctx, s.ReadExecution, actions)\n", Expect: "R17.9"},
 			{Name: "fast-loop-variable-hoisted", File: "pkg/group/exec.go", Old: "\tvar firstErrResponse *memberResponse\n\tfor response := range executeEach(cancelCtx, members) {", New: "\tvar firstErrResponse *memberResponse\n\tvar response memberResponse\n\tfor response = range executeEach(cancelCtx, members) {", Expect: "R17.5"},
 			{Name: "drain-deferred-after-cancel", File: "pkg/group/exec.go", Old: "func ExecuteRace(ctx context.Context, members []Member) (proto.Message, int, error) {\n\tcancelCtx, cancelFunc := context.WithCancel(ctx)\n\tdefer cancelFunc()\n", New: "func ExecuteRace(ctx context.Context, members []Member) (proto.Message, int, error) {\n\tcancelCtx, cancelFunc := context.WithCancel(ctx)\n\tdefer cancelFunc()\n\tdrainCh := make(chan memberResponse)\n\tclose(drainCh)\n\tdefer func() {\n\t\tfor range drainCh {\n\t\t}\n\t}()\n", Expect: "R17.8"},
 			{Name: "most-as-any", File: "pkg/group/exec.go", Old: "\tcase ExecutionStrategyMost:\n\t\treturn ExecuteMost(ctx, members)", New: "\tcase ExecutionStrategyMost:\n\t\treturn ExecuteAny(ctx, members)", Expect: "R17.1"},
@@ -41,6 +42,8 @@ func init() {
 const groupPkg = "pkg/group"
 
 func runC17(c *an.Ctx) {
+	r179(c, "R17.9")
+	c.Min("R17.9", 6)
 	r177(c)
 	r178(c)
 	c.Min("R17.8", 3)
@@ -1144,4 +1147,60 @@ func r178(c *an.Ctx) {
 			"the deferred "+bad+" receives from the members and is deferred after the cancel, so at return it runs BEFORE the cancel: the strategy waits for members nobody has cancelled (Race/Fast return with the slowest member instead of the first, and hang if the others only return on ctx.Done)")
 	}
 	c.Count("cancel_defers", n)
+}
+
+// r179: a group applies the strategy configured for the kind of call it is making: Update…/Set…/Delete…/Create… RPCs
+// run under WriteExecution, Get…/Describe…/List…/Pull… under ReadExecution. With the defaults (All/All) the two are
+// indistinguishable, which is why no test notices; configured differently (reads tolerant, writes strict) a write run
+// under the read strategy reports success although a member failed.
+func r179(c *an.Ctx, rule string) {
+	exq := an.ModulePath + "/pkg/group.Execute"
+	n := 0
+	for _, fn := range c.Prog.FuncsIn("pkg/trait") {
+		if c.Prog.IsGenerated(fn.Pos()) {
+			continue
+		}
+		for _, call := range an.CallsTo(fn, exq) {
+			if len(call.Common().Args) < 2 {
+				continue
+			}
+			field := ""
+			for _, s0 := range an.ValuesAt(call.Common().Args[1]) {
+				if _, _, f, ok := an.FieldOf(s0); ok {
+					field = f
+				}
+			}
+			if field != "ReadExecution" && field != "WriteExecution" {
+				continue
+			}
+			// the handler the call belongs to
+			h := fn
+			for h.Parent() != nil {
+				h = h.Parent()
+			}
+			want := ""
+			switch {
+			case hasAnyPrefix(h.Name(), "Update", "Set", "Delete", "Create", "Add", "Remove", "Clear", "Change"):
+				want = "WriteExecution"
+			case hasAnyPrefix(h.Name(), "Get", "Describe", "List", "Pull"):
+				want = "ReadExecution"
+			default:
+				continue
+			}
+			n++
+			c.SawFunc(an.FuncName(h))
+			c.Check(field == want, rule, an.FuncName(h)+"|runs under the strategy of its kind", call.Pos(), "group.Execute(ctx, s."+want+", …)",
+				an.FuncName(h)+" executes its member calls under s."+field+"; a call of this kind is governed by s."+want+": with differently configured strategies a failing member is tolerated (or not) against the configuration")
+		}
+	}
+	c.Count("group_execute_calls", n)
+}
+
+func hasAnyPrefix(s string, ps ...string) bool {
+	for _, p := range ps {
+		if strings.HasPrefix(s, p) {
+			return true
+		}
+	}
+	return false
 }
